@@ -345,6 +345,13 @@ RunPipeClosed(d, p) ==
   /\ dialLog' = [dialLog EXCEPT ![d] = Append(@, <<"lost", now, reconn[d]>>)]
   /\ UNCHANGED <<now, sockClosed, pipeVars, dialVars, lisVars, hookLog, protoLog>>
 
+\* Dialer.SetOption / Socket.SetOption (handed down) of the reconnect times while the dialer is at work: only the
+\* option fields change.  The delay reached so far stays (the new initial value applies at the next reset - Dial() or a
+\* successful connection -, the new maximum at the next growth).
+SetReconnOpt(d, mn, mx) ==
+  /\ opt' = [opt EXCEPT ![d].min = mn, ![d].max = mx]
+  /\ UNCHANGED <<now, sockClosed, pipeVars, async, timers, dialVars, lisVars, histVars>>
+
 MinDue == CHOOSE m \in {t.due : t \in timers} : \A t \in timers : m <= t.due
 
 \* a redial timer fires (timers fire in due order; time jumps to the due time)
